@@ -151,6 +151,9 @@ fn bases<const N: usize>() -> Vec<(&'static str, Vec<R>)> {
     let e = s3[N * N - 1];
     s3[N * N - 1] = (e.0 * (1i64 << 40) / e.1 + 1, 1i64 << 40);
     out.push(("tiny-det", s3));
+    // every entry tiny (generic * 2^-20): the determinant is far below machine epsilon but not zero
+    let s4: Vec<R> = alphabet::generic(N * N, 0).iter().map(|r| (r.0, r.1 << 20)).collect();
+    out.push(("tiny-scale", s4));
     out
 }
 fn add(a: R, b: R) -> R {
@@ -165,7 +168,7 @@ fn generic<T: Tier, M: MatN<T, N> + InvT<T>, const N: usize>(rep: &mut Report) {
     rep.cases(
         &format!("generic/{}", M::NAME),
         T::NAME,
-        &format!("6 bases (3 generic, 2 exactly singular without zero entries, 1 with det ~2^-40) x <= {k} deviations over A1"),
+        &format!("7 bases (3 generic, 2 exactly singular without zero entries, 1 with det ~2^-40, 1 scaled by 2^-20 so that |det| << machine epsilon) x <= {k} deviations over A1"),
         bs.len() * dev.len(),
         Guard::states(100).need("singular", 2).need("invertible", 50).distinct(50),
         |i, ctx| {
